@@ -223,6 +223,7 @@ class FrameQueueFrag(FrameQueue):
             if (
                 self._frags.header.from_node is not None  # if not just initialized
                 and frame.header.to_node == self._frags.header.to_node
+                and frame.header.from_node == self._frags.header.from_node
                 and frame.header.frame_id == self._frags.header.frame_id
             ):
                 if frame.header.message_type == MSG_FRAG_LAST:
